@@ -47,7 +47,7 @@ def check(run, model, tier):
         g = cfg_of(f)
         run.touch(f, g)
         for h in g.loop_heads():
-            in_ld = f.owner_class is ld and f.name in ('append', 'appendleft')
+            in_ld = f.owner_class is ld
             if in_ld:
                 allowed_loops += 1
             run.inst('LOOPS.post-path', f, 'loop ' + h.text(), in_ld, '' if in_ld else 'a loop other than the token repair loops is reachable from an untimed post', node=h.ast, obligation=True)
@@ -57,7 +57,7 @@ def check(run, model, tier):
             for c in n.calls():
                 if isinstance(c.func, ast.Attribute) and c.func.attr in BLOCKING:
                     run.inst('LOOPS.post-path', f, 'blocking call ' + norm(c.func), False, 'a blocking call is reachable from an untimed post', node=c, obligation=True)
-    run.floor('token repair loops on the post path', allowed_loops, 2)
+    run.floor('token repair loops on the post path', allowed_loops, 1)
     # the untimed branch of ActiveObject.post_*: `period is None` -> super().post_*(e)
     for nm in ('post_fifo', 'post_lifo'):
         f = ao.methods.get(nm)
